@@ -1,19 +1,24 @@
 package main
 
 import (
+	"bytes"
 	"fmt"
 	"reflect"
+	"sort"
 	"unsafe"
 
 	"github.com/cronokirby/saferith"
 	"github.com/fxamacker/cbor/v2"
 	"github.com/taurusgroup/multi-party-sig/internal/round"
+	"github.com/taurusgroup/multi-party-sig/internal/types"
+	"github.com/taurusgroup/multi-party-sig/internal/zzverif/drv"
 	"github.com/taurusgroup/multi-party-sig/internal/zzverif/faults"
 	"github.com/taurusgroup/multi-party-sig/pkg/hash"
 	"github.com/taurusgroup/multi-party-sig/pkg/math/curve"
 	"github.com/taurusgroup/multi-party-sig/pkg/math/polynomial"
 	"github.com/taurusgroup/multi-party-sig/pkg/math/sample"
 	"github.com/taurusgroup/multi-party-sig/pkg/party"
+	"github.com/taurusgroup/multi-party-sig/pkg/pedersen"
 	"github.com/taurusgroup/multi-party-sig/pkg/protocol"
 	zksch "github.com/taurusgroup/multi-party-sig/pkg/zk/sch"
 )
@@ -174,8 +179,211 @@ func startCases(w *world) []kase {
 	return out
 }
 
+// committedValueCases: a party commits to a MALFORMED value in one round and opens exactly that
+// commitment in a later one (wrong length, all zero).  Altering the opening alone is refused by the
+// decommitment; here commitment and opening are consistent, so only the validation of the opened
+// value itself stands between the sender and the code that uses it.
+func committedValueCases(w *world) []kase {
+	type site struct {
+		commitRound           int
+		commitField           string
+		openRound             int
+		valueField, openField string
+	}
+	var st site
+	switch w.sc.Proto {
+	case "frost-keygen", "frost-keygen-taproot", "frost-refresh":
+		st = site{2, "/Commitment", 3, "/C_l", "/Decommitment"}
+	case "cmp-presign", "cmp-presign-full":
+		st = site{2, "/CommitmentID", 7, "/PresignatureID", "/DecommitmentID"}
+	default:
+		return nil
+	}
+	devs := w.spec.IDs
+	if !vkitThorough() {
+		devs = devs[len(devs)-1:]
+	}
+	values := map[string][]byte{
+		"2-bytes":  {1, 2},
+		"31-bytes": bytes.Repeat([]byte{7}, 31),
+		"33-bytes": bytes.Repeat([]byte{7}, 33),
+		"64-bytes": bytes.Repeat([]byte{7}, 64),
+		"all-zero": make([]byte, 32),
+	}
+	var names []string
+	for k := range values {
+		names = append(names, k)
+	}
+	sort.Strings(names)
+	var out []kase
+	for _, d := range devs {
+		for _, vn := range names {
+			d, val := d, values[vn]
+			var com, decom []byte
+			set := func(data []byte, fields map[string][]byte) []byte {
+				tree, err := faults.Decode(data)
+				if err != nil {
+					return data
+				}
+				for f, v := range fields {
+					nt, ok := faults.Set(tree, f, v, false)
+					if !ok {
+						return data
+					}
+					tree = nt
+				}
+				return faults.Encode(tree)
+			}
+			slot := faults.Slot{From: d, Round: st.commitRound, Broadcast: true}
+			name := "committed-value-" + vn + "-opened-consistently"
+			f := faults.MessageFault(slot, name, "replace", func(m *protocol.Message) *protocol.Message {
+				if com != nil {
+					m.Data = set(m.Data, map[string][]byte{st.commitField: com})
+				}
+				return m
+			})
+			f.Deviator = d
+			f.Also = func(dl drv.Delivery) *protocol.Message {
+				if com == nil || !dl.M.Broadcast || int(dl.M.RoundNumber) != st.openRound {
+					return nil
+				}
+				m := drv.CloneMsg(dl.M)
+				m.Data = set(m.Data, map[string][]byte{st.valueField: val, st.openField: decom})
+				return m
+			}
+			done := false
+			f.StateHook = func(h protocol.Handler) bool {
+				if done {
+					return true
+				}
+				cr, ok := faults.CurrentRound(h)
+				if !ok {
+					return false
+				}
+				hh, ok := cr.Interface().(interface {
+					HashForID(party.ID) *hash.Hash
+				})
+				if !ok {
+					return false
+				}
+				c, dc, err := hh.HashForID(d).Commit(types.RID(val))
+				if err != nil {
+					return false
+				}
+				com, decom = []byte(c), []byte(dc)
+				faults.RewriteOwnBroadcast(h, st.commitRound, d, func(data []byte) []byte {
+					return set(data, map[string][]byte{st.commitField: com})
+				})
+				done = true
+				return true
+			}
+			out = append(out, kase{Scenario: w.sc, Deviator: d, Slot: slot, Path: st.valueField, Op: name, Menu: "coordinated", fault: f})
+		}
+	}
+	return out
+}
+
+// equivocatedCommitmentCases (CMP key generation, n >= 3): the deviator shows ONE recipient a second,
+// equally valid commitment in round 2 - to the same values except for another chain-key contribution,
+// with a fresh decommitment - and opens it consistently to that recipient in round 3, while everybody
+// else sees the original commitment and opening.  No single message is malformed and every opening
+// matches the commitment its recipient holds: only the echo of the round-2 broadcast tells the honest
+// parties that they were shown different commitments.
+func equivocatedCommitmentCases(w *world) []kase {
+	if w.sc.Proto != "cmp-keygen" || len(w.spec.IDs) < 3 {
+		return nil
+	}
+	var out []kase
+	d := w.spec.IDs[len(w.spec.IDs)-1]
+	for _, to := range w.spec.IDs {
+		if to == d {
+			continue
+		}
+		d, to := d, to
+		var com, decom, ck []byte
+		set := func(data []byte, fields map[string][]byte) []byte {
+			tree, err := faults.Decode(data)
+			if err != nil {
+				return data
+			}
+			for f, v := range fields {
+				nt, ok := faults.Set(tree, f, v, false)
+				if !ok {
+					return data
+				}
+				tree = nt
+			}
+			return faults.Encode(tree)
+		}
+		slot := faults.Slot{From: d, To: to, Round: 2, Broadcast: true}
+		name := "second-commitment-with-another-chain-key-opened-consistently@one-recipient"
+		f := faults.MessageFault(slot, name, "replace", func(m *protocol.Message) *protocol.Message {
+			if com != nil {
+				m.Data = set(m.Data, map[string][]byte{"/Commitment": com})
+			}
+			return m
+		})
+		f.Deviator = d
+		f.Also = func(dl drv.Delivery) *protocol.Message {
+			if com == nil || !dl.M.Broadcast || int(dl.M.RoundNumber) != 3 || dl.To != to {
+				return nil
+			}
+			m := drv.CloneMsg(dl.M)
+			m.Data = set(m.Data, map[string][]byte{"/C": ck, "/Decommitment": decom})
+			return m
+		}
+		done := false
+		f.StateHook = func(h protocol.Handler) bool {
+			if done {
+				return true
+			}
+			cr, ok := faults.CurrentRound(h)
+			if !ok {
+				return false
+			}
+			hh, ok := cr.Interface().(interface {
+				HashForID(party.ID) *hash.Hash
+			})
+			if !ok {
+				return false
+			}
+			rv := cr.Elem()
+			at := func(field string) (reflect.Value, bool) {
+				fv := rv.FieldByName(field)
+				if !fv.IsValid() || fv.Kind() != reflect.Map {
+					return reflect.Value{}, false
+				}
+				x := fv.MapIndex(reflect.ValueOf(d))
+				return x, x.IsValid()
+			}
+			rid, ok1 := at("RIDs")
+			chain, ok2 := at("ChainKeys")
+			poly, ok3 := at("VSSPolynomials")
+			elg, ok4 := at("ElGamalPublic")
+			ped, ok5 := at("Pedersen")
+			sr := rv.FieldByName("SchnorrRand")
+			if !(ok1 && ok2 && ok3 && ok4 && ok5) || !sr.IsValid() {
+				return false
+			}
+			other := append(types.RID{}, chain.Interface().(types.RID)...)
+			other[0] ^= 0x55
+			pp := ped.Interface().(*pedersen.Parameters)
+			c, dc, err := hh.HashForID(d).Commit(rid.Interface(), other, poly.Interface(), sr.Interface().(*zksch.Randomness).Commitment(), elg.Interface(), pp.N(), pp.S(), pp.T())
+			if err != nil {
+				return false
+			}
+			com, decom, ck = []byte(c), []byte(dc), []byte(other)
+			done = true
+			return true
+		}
+		out = append(out, kase{Scenario: w.sc, Deviator: d, Slot: slot, Path: "/Commitment", Op: name, Menu: "coordinated", fault: f})
+	}
+	return out
+}
+
 func specialCases(w *world, check string) []kase {
 	var out []kase
+	out = append(out, committedValueCases(w)...)
 	if check != "C05" {
 		out = append(out, startCases(w)...) // deviations without a malformed message: nothing for C05 to judge
 	}
